@@ -29,6 +29,7 @@ FIXED = [
  ("F8",  ["C07"], "29cfa29", "grid_level in the first / last half cell of the domain was min() with uninitialised memory"),
  ("F22", ["C16"], "5ebdddf", "plotfile-format slice shared one buffer between all levels and both sides: no interpolation, coarse boxes cut from finest data"),
  ("F24", ["C16"], "ae59c35", "plotfile-format slice chunk arithmetic: range() step 0 for a level the plane misses or fewer boxes than files; boxes silently dropped for 5 boxes / 3 files"),
+ ("F23", ["C16"], "9decc78", "plotfile-format slice within half a cell of a level edge (patch boundary, first / last half cell of the domain) interpolated against uninitialised memory"),
  ("F25", ["C17"], "3faf934", "chk2plt with species_reactions=True raised for every checkpoint (I_R block not reshaped)"),
  ("F26", ["C17"], "268c918", "chk2plt box bounds used dx[0] in all directions: wrong bounds for anisotropic cells"),
  ("F18", ["C13", "C17"], "de9f79e", "chk2plt default output with a trailing slash / a name without 'chk' was the checkpoint itself (Header overwritten)"),
